@@ -761,7 +761,7 @@ def phi_4D_admix_into_4(phi, f1,f2,f3, xx,yy,zz,aa):
     _check_admix_proportions(f1, f2, f3)
     Demes.cache.append(Demes.Pulse(sources=[1,2,3], dest=1, proportions=[f1, f2, f3]))
     lower_w_index, upper_w_index, frac_lower, frac_upper, norm \
-            = _four_pop_admixture_intermediates(phi, f1,f2,f3, xx,yy,zz,aa, yy)
+            = _four_pop_admixture_intermediates(phi, f1,f2,f3, xx,yy,zz,aa, aa)
 
     lower_cont = frac_lower * norm
     upper_cont = frac_upper * norm
@@ -800,7 +800,7 @@ def phi_4D_admix_into_3(phi, f1,f2,f4, xx,yy,zz,aa):
     _check_admix_proportions(f1, f2, f4)
     Demes.cache.append(Demes.Pulse(sources=[1,2,4], dest=3, proportions=[f1, f2, f4]))
     lower_w_index, upper_w_index, frac_lower, frac_upper, norm \
-            = _four_pop_admixture_intermediates(phi, f1,f2,1-f1-f2-f4, xx,yy,zz,aa, yy)
+            = _four_pop_admixture_intermediates(phi, f1,f2,1-f1-f2-f4, xx,yy,zz,aa, zz)
 
     lower_cont = frac_lower * norm
     upper_cont = frac_upper * norm
@@ -920,7 +920,7 @@ def phi_5D_admix_into_2(phi, f1,f3,f4,f5, xx,yy,zz,aa,bb):
     """
     _check_admix_proportions(f1, f3, f4, f5)
     lower_w_index, upper_w_index, frac_lower, frac_upper, norm \
-            = _five_pop_admixture_intermediates(phi, f1, 1-f1-f3-f4-f5,f3,f4, xx,yy,zz,aa,bb, xx)
+            = _five_pop_admixture_intermediates(phi, f1, 1-f1-f3-f4-f5,f3,f4, xx,yy,zz,aa,bb, yy)
 
     lower_cont = frac_lower * norm
     upper_cont = frac_upper * norm
@@ -933,7 +933,7 @@ def phi_5D_admix_into_2(phi, f1,f3,f4,f5, xx,yy,zz,aa,bb):
                     phi_int = numpy.zeros((phi.shape[1], phi.shape[1]))
                     phi_int[idx_j, lower_w_index[ii,:,kk,ll,mm]] = lower_cont[ii,:,kk,ll,mm]
                     phi_int[idx_j, upper_w_index[ii,:,kk,ll,mm]] = upper_cont[ii,:,kk,ll,mm]
-                    phi[ii,:,kk,ll,mm] = Numerics.trapz(phi_int, xx, axis=0)
+                    phi[ii,:,kk,ll,mm] = Numerics.trapz(phi_int, yy, axis=0)
 
     return phi
 
@@ -961,7 +961,7 @@ def phi_5D_admix_into_3(phi, f1,f2,f4,f5, xx,yy,zz,aa,bb):
     """
     _check_admix_proportions(f1, f2, f4, f5)
     lower_w_index, upper_w_index, frac_lower, frac_upper, norm \
-            = _five_pop_admixture_intermediates(phi, f1, f2, 1-f1-f2-f4-f5,f4, xx,yy,zz,aa,bb, xx)
+            = _five_pop_admixture_intermediates(phi, f1, f2, 1-f1-f2-f4-f5,f4, xx,yy,zz,aa,bb, zz)
 
     lower_cont = frac_lower * norm
     upper_cont = frac_upper * norm
@@ -974,7 +974,7 @@ def phi_5D_admix_into_3(phi, f1,f2,f4,f5, xx,yy,zz,aa,bb):
                     phi_int = numpy.zeros((phi.shape[2], phi.shape[2]))
                     phi_int[idx_k, lower_w_index[ii,jj,:,ll,mm]] = lower_cont[ii,jj,:,ll,mm]
                     phi_int[idx_k, upper_w_index[ii,jj,:,ll,mm]] = upper_cont[ii,jj,:,ll,mm]
-                    phi[ii,jj,:,ll,mm] = Numerics.trapz(phi_int, xx, axis=0)
+                    phi[ii,jj,:,ll,mm] = Numerics.trapz(phi_int, zz, axis=0)
 
     return phi
 
@@ -1002,7 +1002,7 @@ def phi_5D_admix_into_4(phi, f1,f2,f3,f5, xx,yy,zz,aa,bb):
     """
     _check_admix_proportions(f1, f2, f3, f5)
     lower_w_index, upper_w_index, frac_lower, frac_upper, norm \
-            = _five_pop_admixture_intermediates(phi, f1, f2, f3, 1-f1-f2-f3-f5, xx,yy,zz,aa,bb, xx)
+            = _five_pop_admixture_intermediates(phi, f1, f2, f3, 1-f1-f2-f3-f5, xx,yy,zz,aa,bb, aa)
 
     lower_cont = frac_lower * norm
     upper_cont = frac_upper * norm
@@ -1015,7 +1015,7 @@ def phi_5D_admix_into_4(phi, f1,f2,f3,f5, xx,yy,zz,aa,bb):
                     phi_int = numpy.zeros((phi.shape[3], phi.shape[3]))
                     phi_int[idx_l, lower_w_index[ii,jj,kk,:,mm]] = lower_cont[ii,jj,kk,:,mm]
                     phi_int[idx_l, upper_w_index[ii,jj,kk,:,mm]] = upper_cont[ii,jj,kk,:,mm]
-                    phi[ii,jj,kk,:,mm] = Numerics.trapz(phi_int, xx, axis=0)
+                    phi[ii,jj,kk,:,mm] = Numerics.trapz(phi_int, aa, axis=0)
 
     return phi
 
@@ -1043,7 +1043,7 @@ def phi_5D_admix_into_5(phi, f1,f2,f3,f4, xx,yy,zz,aa,bb):
     """
     _check_admix_proportions(f1, f2, f3, f4)
     lower_w_index, upper_w_index, frac_lower, frac_upper, norm \
-            = _five_pop_admixture_intermediates(phi, f1, f2, f3, f4, xx,yy,zz,aa,bb, xx)
+            = _five_pop_admixture_intermediates(phi, f1, f2, f3, f4, xx,yy,zz,aa,bb, bb)
 
     lower_cont = frac_lower * norm
     upper_cont = frac_upper * norm
@@ -1056,7 +1056,7 @@ def phi_5D_admix_into_5(phi, f1,f2,f3,f4, xx,yy,zz,aa,bb):
                     phi_int = numpy.zeros((phi.shape[4], phi.shape[4]))
                     phi_int[idx_m, lower_w_index[ii,jj,kk,ll,:]] = lower_cont[ii,jj,kk,ll,:]
                     phi_int[idx_m, upper_w_index[ii,jj,kk,ll,:]] = upper_cont[ii,jj,kk,ll,:]
-                    phi[ii,jj,kk,ll,:] = Numerics.trapz(phi_int, xx, axis=0)
+                    phi[ii,jj,kk,ll,:] = Numerics.trapz(phi_int, bb, axis=0)
 
     return phi
 
